@@ -28,9 +28,30 @@ TRUSTED_BASE = [
     "re-verified after every operation under ASan (differential run), and follows in the model from 'no slab is ever "
     "freed or moved and live blocks stay out of the free part'",
 ]
+TRUSTED_BASE.append(
+    "second tie (translator kind): lib/props/c06_slice.py executes muggle_memory_pool_ensure_space / _alloc / _free / _init "
+    "symbolically over the clang JSON AST of the C text of this run (pool fields -> arguments; pointers followed as "
+    "(object, cell index); k-th malloc -> fresh object heap_k at address m_k with the requested size recorded; memcpy -> "
+    "lblit; counting loops -> lfill; file-local helpers inlined in continuation-passing style; &&, ||, ! around calls "
+    "lowered to branches; ensure_space opaque inside alloc) into the gen_ definitions of coq/gen/Params_C06.v; trusted: "
+    "clang 14 AST, the slicer, the vocabulary of coq/Lib/Leaf.v and coq/C06/GenLib.v")
 ASSUMPTIONS = ["free is given a block that is currently live in this pool (DESIGN.md Appendix B)",
                "arguments are uint32 values; LP64 host (size_t products of two uint32 values do not wrap)"]
 EVIDENCE_NOTES = [
+    "translator tie (obligations gen_*_matches_model, gen_ensure_space_matches_reference): the generated functions are "
+    "proved equal to hand-written references on the whole arithmetic domain by a shape-independent tactic (every `if` "
+    "decided, tuples component-wise, integers by time-limited lia/nia, arrays cell by cell), and the model's free / "
+    "alloc / init / ensure_space equal the same references on every state satisfying the ring invariant: new "
+    "alloc_index / free_index / capacity / num_buf / used, every cell of the re-linearised pointer ring (three layouts, "
+    "four runs, new blocks at base + i * block_size), growth step clamp / uint32 sum / overflow guard, cursor stepping "
+    "with wrap, default capacity, the three size_t size products, every malloc-failure path.  An edit of memory_pool.c "
+    "that changes one of these values anywhere in the domain, or cannot be sliced (reported as a comment in "
+    "gen/Params_C06.v), breaks an obligation even when no generated history reaches it (checked: seeded C06-1..6 and a "
+    "+1 / -1 on one section length all break a gen obligation); hoisted locals, index- instead of pointer-based "
+    "sections, reordered De Morgan branch chains, helper functions, memcpy replaced by an element loop keep it "
+    "(refactored/C06-A..D quiet).  Not in the translator tie: destroy, set_flag / set_max_delta_cap / get_flag "
+    "(one-line accessors), the debug-only peak counter, free() calls (failure paths' releases are checked by the "
+    "differential run: leaked=0).",
     "proved (Coq, all histories/capacities/block sizes/malloc oracles, repaired code fx=true): ring invariant A.2 for every "
     "reachable state; fresh block on every alloc; live blocks pairwise disjoint and inside their slab; growth keeps "
     "slabs as a prefix, live set and free part; counters refine the reference counter model; constant-size never "
@@ -45,6 +66,34 @@ EVIDENCE_NOTES = [
 
 LIMIT = 1 << 30
 U32 = 1 << 32
+
+# second tie (translator kind): functions of memory_pool.c sliced into Gallina on every run
+GEN_FUNCS = [("ensure_space", None), ("alloc", {"muggle_memory_pool_ensure_space":
+                                                ["alloc_index", "capacity", "free_index", "num_buf", "memory_pool_ptr_buf"]}),
+             ("free", None), ("init", None)]
+
+
+def gen_params(ctx):
+    """coq/gen/Params_C06.v: the integer / pointer-ring content of ensure_space, alloc, free and init, sliced out of the
+    clang AST of the C text of this run (lib/props/c06_slice.py).  A function that cannot be sliced is written as a
+    comment, which breaks its gen_*_matches_model obligation."""
+    import os
+    import leaftrans as L
+    from props import c06_slice as S
+    V.gen_config_header()
+    flags = ["-std=gnu11", "-I" + V.REPO, "-I" + V.GEN_INC, "-DNDEBUG"]
+    src = os.path.join(V.REPO, REPO_SOURCES[0])
+    lines = ["(* generated by lib/props/c06.py (lib/props/c06_slice.py) from %s of this run; do not edit *)" % REPO_SOURCES[0],
+             "From MV Require Import Lib.Leaf C06.GenLib.", "Local Open Scope Z_scope.", ""]
+    for nm, opaque in GEN_FUNCS:
+        try:
+            lines.append(S.translate(src, "muggle_memory_pool_" + nm, flags, "gen_" + nm, opaque))
+        except L.LeafError as e:
+            lines.append("(* slicer error for %s: %s *)\n" % (nm, str(e).replace("*)", "* )")))
+        except Exception as e:      # a broken AST must break the obligation, not the machinery
+            lines.append("(* slicer failure for %s: %s: %s *)\n" % (nm, type(e).__name__, str(e)[:200].replace("*)", "* )")))
+    return "\n".join(lines) + "\n"
+
 
 
 def _case(name, lines):
@@ -546,5 +595,6 @@ MANIFEST = {
     "design_ref": "DESIGN.md section 6 / C06, Appendix A.2, section 5 rows C06",
     "level_note": ("Trusted: Coq kernel, extraction (ExtrOcamlBasic), the differential harness and wrapped malloc; block "
                    "contents are checked only by the driver; LP64 sizes; free is given a live block."),
-    "technique": "Coq proof of an inductive ring invariant with ghost live set + extracted-model differential run + ownership monitor",
+    "technique": ("Coq proof of an inductive ring invariant with ghost live set + extracted-model differential run + ownership "
+                  "monitor + translator tie (C text sliced into Gallina, proved equal to the model on every invariant state)"),
 }
